@@ -32,6 +32,7 @@ RULE_TEXT = {
     "SYM-1": "adopt records exactly Forward(other) in this's table and Backward(this) in other's (Loopback for the same handle), +1 each",
     "SYM-2": "unadopt removes exactly the mirror image of what adopt records, by 1",
     "SYM-3": "an object dying with adoption links removes its Forward and Backward records, by the recorded multiplicity, from every peer named in its table before its contents are destroyed",
+    "SYM-5": "what adopt / unadopt record for a pair of objects does not depend on which handle objects name the pair (unadopt is the inverse of adopt for the same two objects)",
     "SYM-4": "recording a link adds exactly one from a zero start; lowering is checked and never writes back a zero count",
     "API-1": "documented guard <=> outcome and net effects of try_unwrap, get_mut, make_mut, upgrade, downgrade, raw-pointer round trips, increment/decrement_strong_count, ptr_eq",
     "FWD-1": "comparison / hashing / formatting / borrowing impls forward to the same method on the value, operands in order, result unchanged, no side effects",
@@ -45,14 +46,14 @@ RULE_TEXT = {
 }
 
 PROPS = {
-    "C01": ["TS-1", "TS-2", "GATE-1", "GATE-4", "GATE-6", "GATE-7", "GATE-8", "GATE-10", "SYM-1", "SYM-2", "SYM-3"],
+    "C01": ["TS-1", "TS-2", "GATE-1", "GATE-4", "GATE-6", "GATE-7", "GATE-8", "GATE-10", "SYM-1", "SYM-2", "SYM-3", "SYM-5"],
     "C02": ["TS-1", "TS-3", "TS-4", "GATE-1", "GATE-10", "EFF-2", "UNW-1", "PROV-1", "SYM-3", "TS-6", "TS-9"],
     "C03": ["GATE-5", "GATE-6", "GATE-8", "GATE-9", "GATE-10", "ITER-1", "EFF-4", "PROV-1", "TS-5", "SYM-1", "SYM-2", "SYM-3"],
     "C04": ["TS-3", "TS-4", "TS-5", "SYM-4", "API-1"],
     "C05": ["TS-2", "TS-3", "TS-4", "TS-7", "TS-8", "TS-9", "GATE-5", "EFF-2", "API-1"],
     "C06": ["EFF-2", "EFF-3", "EFF-4", "TS-8", "TS-9", "PROV-1", "GATE-4", "GATE-6", "API-1"],
     "C07": ["FWD-1", "API-1", "TS-6", "TS-7", "TS-8", "TS-9", "GATE-3"],
-    "C08": ["SYM-1", "SYM-2", "SYM-3", "SYM-4", "EFF-4", "KEY-1"],
+    "C08": ["SYM-1", "SYM-2", "SYM-3", "SYM-4", "SYM-5", "EFF-4", "KEY-1"],
     "C09": ["ITER-1", "ITER-2", "ITER-3", "ITER-4", "TS-2", "KEY-1"],
     "C10": ["BRW-1", "BRW-2", "BRW-3", "TS-2", "TS-3", "SYM-3"],
     "C11": ["UNW-1", "TS-2", "TS-6", "BRW-1"],
